@@ -103,7 +103,8 @@ func genC11(seed uint64, idx int, tier string) *Scenario {
 			ej, _ := json.Marshal(c)
 			a.Ops = append(a.Ops, Op{K: "ftp", Exp: ej})
 		}
-		a.Ops = append(a.Ops, SendOp([]byte("PWD\r\n"), nil, ""), Op{K: "close"})
+		ej, _ := json.Marshal(c11Cmd{Verb: "PWD"})
+		a.Ops = append(a.Ops, Op{K: "ftp", Exp: ej}, Op{K: "close"})
 		sc.Actors = append(sc.Actors, a)
 	}
 	sc.Class = fmt.Sprintf("sessions=%d", ns)
@@ -139,7 +140,7 @@ func snapshotTree(root string, skip string) map[string]string {
 }
 
 var pasvRe = regexp.MustCompile(`227 [^(]*\((\d+),(\d+),(\d+),(\d+),(\d+),(\d+)\)`)
-var pwdRe = regexp.MustCompile(`257 "([^"]*)"`)
+var pwdRe = regexp.MustCompile(`(?m)^257 (.*?)\r?$`)
 
 func runC11(t *testing.T, sc *Scenario) Result {
 	res := okResult()
@@ -203,8 +204,10 @@ func runC11(t *testing.T, sc *Scenario) Result {
 				ep.PeerInject([]byte(line + "\r\n"))
 				b := drain()
 				check("reply to "+line, b)
-				for _, m := range pwdRe.FindAllSubmatch(b, -1) {
-					pwds = append(pwds, string(m[1]))
+				if c.Verb == "PWD" || c.Verb == "XPWD" {
+					for _, m := range pwdRe.FindAllSubmatch(b, -1) {
+						pwds = append(pwds, string(m[1]))
+					}
 				}
 				return
 			}
@@ -261,12 +264,14 @@ func runC11(t *testing.T, sc *Scenario) Result {
 		w.Play()
 		w.Drain()
 		for i := range w.Obs.Conns {
-			for _, m := range pwdRe.FindAllSubmatch(w.Obs.Conns[i].Recv, -1) {
-				pwds = append(pwds, string(m[1]))
-			}
 			check("transcript", w.Obs.Conns[i].Recv)
 		}
 		after = snapshotTree(tmp, ftpRoot)
+		// error replies quote host paths: mask them so that traces are comparable between runs
+		for i := range w.Obs.Conns {
+			b := bytes.ReplaceAll(w.Obs.Conns[i].Recv, []byte(ftpRoot), []byte("@ROOT@"))
+			w.Obs.Conns[i].Recv = bytes.ReplaceAll(b, []byte(tmp), []byte("@TMP@"))
+		}
 	})
 	res.Digest = traceDigest(obs, map[string]bool{"ftp.sessionid": true})
 	res.Steps, res.SimMs = obs.Steps, obs.SimMs
